@@ -5,6 +5,9 @@ VERIF = os.path.dirname(os.path.dirname(os.path.abspath(__file__)))
 
 # id -> (category, technique, text, note, design_ref)
 CHECKS = {
+    'C15': ('fault_enumeration', 'schedule enumeration by hook-driven signal delivery on the real SignalHandler (one child process per schedule) + timer-driven asynchronous delivery; oracle over recorded Stop()/callback/exit observations',
+            'All 1770 schedules of 1-3 SIGINT/SIGTERM deliveries over the 20 named delivery points (inside the constructor, between the stores of both SetHandler calls, inside the destructor, and at the life-cycle steps) are executed against the real code; for each, the later Stop() values, the (function,data) pairs the callbacks saw, the <BREAK> count and the exit status are judged. Asynchronous timer-driven delivery adds instruction-level delivery points between the hooks.',
+            'exhaustive over the named points for <=3 signals; instruction-level points between hooks are only sampled; delivery is on the main thread', '2/C15'),
     'C16': ('exploration', 'monitoring of the real amplgsl.cc function table (built against a stand-in funcadd.h + system GSL) under ASan; derivatives judged by Ridders extrapolation of the same binding\'s values',
             'All ~340 registered functions are called with regular, integer, boundary and hostile (NaN/Inf/huge) argument vectors in value, first- and second-derivative modes with random dig masks, each twice: no error must mean non-NaN value/partials that agree with numerical differentiation (with reproduction at a neighbouring point before a disagreement counts), errors must be explicit, calls deterministic (random-valued ones after reseeding), no sanitizer report.',
             'the stand-in funcadd.h fixes the arglist layout for both sides; second partials are indexed by rows as in test/gsl-test.cc; calls exceeding 8 s inside libgsl are counted as inconclusive, not judged; libgsl is uninstrumented', '2/C16'),
